@@ -578,6 +578,7 @@ def run_trading(rnd, S, cfgk, intensity=1.0, script=None, analyser=False, ids=No
             before = accounts_snap(context)
             pf_before = pf_snap(context)
             n_val0 = len(tr.rec.validations)
+            n_ev0 = len(tr.events)
             pos_info = {}
             try:
                 for oid_ in stocks:
@@ -791,6 +792,7 @@ def run_trading(rnd, S, cfgk, intensity=1.0, script=None, analyser=False, ids=No
             if call["api"] is None:
                 continue
             call["val_range"] = (n_val0, len(tr.rec.validations))
+            call["ev_range"] = (n_ev0, len(tr.events))          # what was published while the call ran (fills of this call's and of resting orders)
             call["pos_before"] = pos_info
             def flat(x):
                 if isinstance(x, (list, tuple)):
